@@ -368,7 +368,7 @@ class Ctx:
 
 class Loop:
     def __init__(self, invariant=None, decreases=None, var=None, modifies=None, unroll=False, ghost=None,
-                 prange_writes=(), hints=None, keep_using=None):
+                 prange_writes=(), hints=None, keep_using=None, break_hints=None):
         self.invariant = invariant      # callable(ctx) -> list[(label, SBool)] | SBool
         self.decreases = decreases      # callable(ctx) -> SInt   (while loops)
         self.var = var                  # loop variable name (sanity check of the binding)
@@ -377,6 +377,7 @@ class Loop:
         self.ghost = ghost              # optional dict of ghost hooks
         self.prange_writes = tuple(prange_writes)   # arrays a prange iteration i may write, at [i] only
         self.keep_using = keep_using    # {invariant label: [fact labels]} explicit hypotheses for its inv-keep
+        self.break_hints = break_hints  # callable(ctx)->clauses: ghost assertions where the body leaves by `break`
         self.hints = hints              # callable(ctx)->clauses: ghost assertions at the end of the body,
                                         # each proved (from the earlier ones) and then available to inv-keep
 
@@ -387,7 +388,7 @@ class Contract:
     def __init__(self, target, params, returns=None, requires=None, ensures=None, modifies=(),
                  loops=None, int_mode='math', merge=True, configs=None, trusted=False, note='',
                  raises=None, pure=True, inline=False, witnesses=None, props=(), self_rec=None,
-                 nothrow=True, cut_asserts=None, path_split=False, lemmas_used=(), flags=(), fuel=1, solver_opts=None, gen=None, stand_in=(), tactic=None):
+                 nothrow=True, cut_asserts=None, path_split=False, lemmas_used=(), flags=(), fuel=1, solver_opts=None, gen=None, stand_in=(), tactic=None, post_hints=None, branches=None, post_using=None):
         self.target = target
         self.params = params if callable(params) else list(params)   # [(name, Sort)] or callable(config)->list
         self.returns = returns              # Sort or callable(ctx)->Sort
@@ -412,6 +413,10 @@ class Contract:
         self.tactic = tactic
         self.stand_in = tuple(stand_in)     # 'kind:label' obligations NOT proved: covered only by the runtime-checked
                                             # stand-in (contract evaluated on generated inputs), reported as bounded
+        self.branches = branches or {}      # {ordinal of an `if` (source order): {'then': fn(ctx)->ghost steps, 'orelse': ...}}
+        self.post_using = post_using        # {ensures label: [fact labels]}: explicit hypothesis selection for that clause
+        self.post_hints = post_hints        # callable(ctx, r)->[(label, clause[, using])]: ghost assertions at every return,
+                                            # each proved on that path and then available to the postcondition
         self.gen = gen                      # optional input generator for the witness search: gen(rng, config)->typed args
 
     def param_list(self, config=None):
@@ -459,6 +464,7 @@ class Registry:
         self.by_target = {}
         self.by_name = {}
         self.lemmas = {}
+        self.used_lemmas = set()     # lemmas assumed (as instances) in function proofs
         self.builtins = {}
 
     def add(self, c):
@@ -676,6 +682,16 @@ class Lemma:
             else:
                 ns[name] = z3.Const(fresh_name(prefix + name), s)
         return ns
+
+
+class LemmaInstance:
+    """a proved lemma at given arguments (requires => ensures): may be assumed in a function proof without
+    being proved again; the lemma's own obligations are forced into the same run (Registry.used_lemmas)"""
+
+    def __init__(self, clause, names):
+        self.clause = clause
+        self.names = tuple(names)
+
 
 
 class NS:
